@@ -53,7 +53,9 @@ def index_2d(x, idx1, idx2):
 
 
 def index_range(x, idx1, idx2):
-    return x[idx1:idx2]
+    # a bound given by a variable may arrive as a one-element array (a constant declared by a bare integer has
+    # shape (1,) until it is squeezed for the generated function); numpy accepts only scalars as slice bounds
+    return x[int(np.squeeze(idx1)):int(np.squeeze(idx2))]
 
 
 def index_axis(x, idx=None, axis=0):
